@@ -13,6 +13,87 @@ from harness.pure import small
 from harness.pure import worker_script as ws
 
 
+def race_scenarios(rng, n):
+    """several parties find out at about the same time that the call cannot complete: tasks raising in several workers, a task that
+    overruns its timeout, a worker that is killed"""
+    scs = []
+    for _ in range(n):
+        nj = rng.choice([2, 3, 4])
+        nn = nj * rng.choice([2, 3])
+        t = 0.2
+        k = rng.randint(1, nj)
+        failing = sorted(rng.sample(range(nj), k))
+        durs = {str(i): rng.choice([0.1, 0.19, 0.2, 0.2, 0.21, 0.3]) for i in failing}
+        op = {'op': rng.choice(['map', 'map_unordered', 'imap', 'imap_unordered']), 'n': nn, 'chunk_size': 1, 'elem': 'scalar',
+              'fail': {'at': failing, 'exc': rng.choice(['ValueError', 'Custom', 'KeyError'])}, 'dur': {'kind': 'map', 'map': durs, 'default': 0.05}}
+        sc = {'seed': rng.randint(0, 10 ** 6), 'pool': {'n_jobs': nj, 'start_method': 'fork'}, 'ops': [op], 'want_ffail': True, 'race': []}
+        others = [i for i in range(nj) if i not in failing]
+        r = rng.random()
+        if r < .4 and others:
+            op['task_timeout'] = t
+            op['dur']['map'][str(others[0])] = 50.0
+            sc['race'].append('timeout')
+        if .3 < r < .7 and len(others) >= (2 if 'timeout' in sc['race'] else 1):
+            sc['inject'] = [{'kind': 'sigkill', 'victim': 'Worker-%d' % others[-1], 'when': 'in_user', 'nth': 1}]
+            op['dur']['map'][str(others[-1])] = rng.choice([0.1, 0.2, 0.3])
+            sc['race'].append('kill')
+        r2 = rng.random()
+        if r2 < .5:
+            # every party is held up between its look at the flag and what it does next, so that several get through
+            sc['rules'] = [{'role': 'Worker-%d' % i, 'op': 'value.set', 'obj': 'exception_job_id', 'sleep': rng.choice([0.01, 0.05, 0.2]), 'p': 1.0} for i in range(nj)]
+            sc['rules'] += [{'role': h, 'op': rng.choice(['value.set', 'event.set']), 'obj': rng.choice(['exception_job_id', 'exception_thrown']) if False else None,
+                             'sleep': rng.choice([0.01, 0.05, 0.2]), 'p': 0.5} for h in ('timeout_handler', 'unexpected_death_handler')]
+            if rng.random() < .5:
+                sc['rules'].append({'role': 'Worker-%d' % rng.randrange(nj), 'op': 'event.set', 'obj': 'exception_thrown', 'sleep': rng.choice([0.05, 0.3]), 'p': 1.0})
+        elif r2 < .75:
+            sc['rules'] = gen.schedule_rules(rng, nj)
+        scs.append(sc)
+    return scs
+
+
+def race_judge(chk, sc, o):
+    if o.get('harness_error') or o.get('stuck') or not o.get('ops'):
+        return
+    oo = o['ops'][0]
+    op = sc['ops'][0]
+    if oo.get('outcome') != 'raise':
+        chk.violation('failing_call_raises', {'scenario': sc}, {'outcome': oo.get('outcome')}, 'a call in which a task raises, overruns or loses its worker raises', input_class='race')
+        return
+    ty = (oo.get('exc') or {}).get('type')
+    allowed = {op['fail']['exc'] if op['fail']['exc'] != 'Custom' else 'CustomError'}
+    if 'timeout' in sc['race']:
+        allowed.add('TimeoutError')
+    if 'kill' in sc['race']:
+        allowed.add('RuntimeError')
+    if ty not in allowed and not (op['fail']['exc'] == 'Custom' and str(ty).startswith('Custom')):
+        chk.violation('raises_one_of_the_failures_that_happened', {'scenario': sc}, {'raised': oo.get('exc')}, 'one of: %s' % sorted(allowed), input_class='race')
+
+
+def ffail_tie(chk, scs, obs):
+    """who wrote the job-id slot, set the exception flag, queued or stored a failure, and what the caller then read and fetched, must be a
+    run of Mpire.FirstFailure.step that ends with the caller raising what the model's cache holds"""
+    suite = 'who reports a failing call (slot, flag, queue, cache, fetch) vs Mpire.FirstFailure.step'
+    lines, refs = [], []
+    for sc, o in zip(scs, obs):
+        if o.get('harness_error') or o.get('stuck'):
+            continue
+        if 'ffail' not in o:
+            if o.get('ffail_error'):
+                chk.mismatch(suite + ': the trace could not be read', {'scenario': sc}, o['ffail_error'], 'a readable trace')
+            continue
+        for e in o['ffail']:
+            lines.append('ffail sigs=%s jobs=%s ev=%s' % (','.join(e['sigs']), ','.join(map(str, e['jobs'])) or '-', ','.join(e['ev']) or '-'))
+            refs.append(sc)
+    for line, res, sc in zip(lines, Driver().run(lines), refs):
+        sigs = line.split(' ')[1][5:].split(',')
+        chk.count(suite, key=line, nontrivial=len(sigs) >= 2, sample={'line': line[:300], 'model': res[:120]}, signallers=min(len(sigs), 5),
+                  kinds=''.join(sorted({x[0] for x in sigs})), fetched='MX:' in line)
+        if not res.startswith('ok'):
+            chk.mismatch(suite, {'scenario': sc, 'line': line[:1500]}, 'events of the implementation', res)
+        elif 'MR:' in line and 'MX:' not in line:
+            chk.mismatch(suite + ': the caller read the slot and never got an exception', {'scenario': sc, 'line': line[:1500]}, 'no fetch', res)
+
+
 def run(chk):
     drv = Driver()
     rng = chk.rng
@@ -53,11 +134,21 @@ def run(chk):
     for _sc in scs:
         if rng.random() < .25 and 'rules' not in _sc:
             _sc['rules'] = gen.schedule_rules(rng, _sc['pool']['n_jobs'])      # adversarial schedules
+    for _sc in scs:
+        _sc['want_ffail'] = True
     obs = run_scenarios(chk, 'failing calls under DetSim (kind x position of failure)', scs, {'C04', 'C03'},
                         nontrivial=lambda sc, o: bool(o.get('raised')),
                         dist=lambda sc, o: {'where': 'task' if sc['ops'][0]['fail'].get('at') else 'init' if sc['ops'][0]['fail'].get('init') else 'exit',
                                             'exc': sc['ops'][0]['fail'].get('exc'), 'op': sc['ops'][0]['op'], 'start': sc['pool']['start_method']})
     proto_correspondence(chk, 'protocol traces of failing calls vs Mpire.Proto.step', scs, obs)
+    ffail_tie(chk, scs, obs)
+    rc = race_scenarios(rng, 150 if chk.tier == 'quick' else 3000)
+    robs = run_scenarios(chk, 'several failures at about the same time: raising tasks, an overrunning task, a killed worker (DetSim)', rc, set(),
+                         nontrivial=lambda sc, o: True, dist=lambda sc, o: {'race': '+'.join(sc['race']) or 'raises-only', 'failing': len(sc['ops'][0]['fail']['at']),
+                                                                            'n_jobs': sc['pool']['n_jobs']})
+    for _sc, _o in zip(rc, robs):
+        race_judge(chk, _sc, _o)
+    ffail_tie(chk, rc, robs)
     rs = [gen.gen_repeat_fail_scenario(rng) for _ in range(200 if chk.tier == 'quick' else 3000)]
     run_scenarios(chk, 'several failing calls in a row on one pool: each raises its own error', rs, {'C04', 'C03'},
                   nontrivial=lambda sc, o: len(o.get('raised') or []) >= 2,
